@@ -123,6 +123,11 @@ impl<S: BaseFloat> RM<S> {
         for c in 0..self.n {
             for r in 0..self.n {
                 let d = (self.e[c][r] - o.e[c][r]).abs();
+                // a NaN anywhere makes the whole difference a NaN (which no tolerance admits) instead of being skipped
+                #[allow(clippy::eq_op)]
+                if d != d {
+                    return d;
+                }
                 if d > m {
                     m = d;
                 }
